@@ -4,6 +4,8 @@ C03 — Equality is a coherent equivalence that agrees with hashing and sets.
 Property theorems only; helper lemmas live in `CtyModel/Lemmas`.
 -/
 import CtyModel.Lemmas.SetRefineRun
+import CtyModel.Lemmas.ValEqRules
+import CtyModel.Lemmas.ValEqSymm
 namespace CtyModel
 namespace C03
 
@@ -245,6 +247,362 @@ theorem unlawful_rules_counterexample :
 
 end SetSlice
 /-! ######################## end of SECTION «cty/set» ######################## -/
+
+/-! ########################################################################
+## SECTION «values» — equality, hashing and sets of cty VALUES
+
+Clauses of C03 covered here: *"Raw equality is reflexive, symmetric and
+transitive on all values; the equality operation is symmetric, treats any two
+nulls as equal, agrees with raw equality on wholly known values of the same
+type, and forms a trichotomy with less-than and greater-than on numbers; any
+two values that are equal have the same hash.  Consequently a set never holds
+two equal members …"*.
+
+The functions spoken about are the transliterations the harness diffs against
+/repo: `Num.rawEqual` (`rawNumberEqual`), `Value.equals` (`Value.Equals`),
+`Value.rawEq` (`Value.RawEquals`), `Value.hashBytes` / `Value.hash`
+(`appendSetHashBytes`, `Value.Hash`), `ctyRules` (`setRules`), `Value.mkSetVal`
+(`cty.SetVal`).  `Value.shaped` is shape well-formedness (`SetRulesSpec.lean`);
+`Ty.plain` = no set type and no capsule type occurs — the proved frontier:
+`RawEquals`, `Hash` and `Less` of a set-typed value go through the set's
+iteration order, which is itself defined by `Less`, `RawEquals` and the hash
+bytes of the members (`lvl`); capsule equality is a parameter of the capsule
+type.  Where the full-strength clause is FALSE of the code it is kept as a
+`def … : Prop` with its refutation from a concrete witness next to the
+`_partial` theorem.
+######################################################################## -/
+section Values
+open Value
+
+/-! ### number equality -/
+
+/-- `rawNumberEqual` is an equivalence relation — for ANY decimal text function in
+place of `Text('f', -1)`: it compares a key (sign, integer-ness, the integer
+value or the text).  (What it is NOT is equality of values: see the
+counterexamples below.) -/
+theorem numEq_equiv (text : Num → String) :
+    (∀ a, Num.rawEqualWith text a a = true) ∧
+    (∀ a b, Num.rawEqualWith text a b = Num.rawEqualWith text b a) ∧
+    (∀ a b c, Num.rawEqualWith text a b = true → Num.rawEqualWith text b c = true →
+      Num.rawEqualWith text a c = true) ∧
+    Num.rawEqual = Num.rawEqualWith Num.textF :=
+  ⟨Num.rawEqualWith_refl text, Num.rawEqualWith_symm text, Num.rawEqualWith_trans text, rfl⟩
+
+/-! ### raw equality is an equivalence -/
+
+/-- `RawEquals` never panics on well-formed values of plain types and is decided
+by the structural specification `rawB`. -/
+theorem rawEquals_total (a b : Value) (wa : a.shaped = true) (wb : b.shaped = true) (pa : a.ty.plain = true) :
+    ∃ r, rawEq a b = .ok r :=
+  ⟨_, rawEquals_eq_rawB a b wa wb pa⟩
+
+/-- reflexive (marks, nulls, unknowns with any refinement, nesting included) -/
+theorem rawEquals_refl (v : Value) (hw : v.shaped = true) (hp : v.ty.plain = true) :
+    rawEq v v = .ok true := by
+  rw [rawEquals_eq_rawB v v hw hw hp]
+  simp [rawB_refl v.ty v.v hp ((Value.shaped_iff v).mp hw).2]
+
+/-- symmetric: the same answer (not only the same truth) in both directions -/
+theorem rawEquals_symm (a b : Value) (wa : a.shaped = true) (wb : b.shaped = true) (pa : a.ty.plain = true)
+    (pb : b.ty.plain = true) : rawEq a b = rawEq b a := by
+  rw [rawEquals_eq_rawB a b wa wb pa, rawEquals_eq_rawB b a wb wa pb]
+  obtain ⟨ta, va⟩ := a
+  obtain ⟨tb, vb⟩ := b
+  by_cases h : ta = tb
+  · subst h
+    simp only [decide_true, Bool.true_and]
+    rw [rawB_symm ta va vb pa ((Value.shaped_iff _).mp wa).2 ((Value.shaped_iff _).mp wb).2]
+  · have h' : ¬ tb = ta := fun e => h e.symm
+    simp only [] at h h' ⊢
+    rw [decide_eq_false h, decide_eq_false h']
+    rfl
+
+/-- transitive -/
+theorem rawEquals_trans (a b c : Value) (wa : a.shaped = true) (wb : b.shaped = true) (wc : c.shaped = true)
+    (pa : a.ty.plain = true) (h1 : rawEq a b = .ok true) (h2 : rawEq b c = .ok true) :
+    rawEq a c = .ok true := by
+  rw [rawEquals_eq_rawB a b wa wb pa] at h1
+  simp only [Res.ok.injEq, Bool.and_eq_true, decide_eq_true_eq] at h1
+  have pb : b.ty.plain = true := h1.1 ▸ pa
+  rw [rawEquals_eq_rawB b c wb wc pb] at h2
+  simp only [Res.ok.injEq, Bool.and_eq_true, decide_eq_true_eq] at h2
+  rw [rawEquals_eq_rawB a c wa wc pa]
+  have hac : a.ty = c.ty := h1.1.trans h2.1
+  simp only [hac, decide_true, Bool.true_and, Res.ok.injEq]
+  have := rawB_trans a.ty a.v b.v c.v pa ((Value.shaped_iff a).mp wa).2 (h1.1 ▸ ((Value.shaped_iff b).mp wb).2)
+    (hac ▸ ((Value.shaped_iff c).mp wc).2) h1.2 (h1.1 ▸ h2.2)
+  rw [← hac]; exact this
+
+/-! ### Equals -/
+
+/-- **`Equals` is symmetric** — the two calls return the very same result, be it
+True, False or the unknown bool (so "incl. unknown results") — for any two
+well-formed mark-free values of plain types: same type or different types,
+known, null, unknown with any refinement, `DynamicVal`, nested.  (For marked
+operands `Equals` is this function on the deeply unmarked operands with the
+union of both mark sets re-applied.)  Besides symmetry of the member
+comparisons this needs that none of them panics: the map branch looks the keys
+of each side up in the other. -/
+theorem equals_symm (a b : Value) (wa : a.shaped = true) (wb : b.shaped = true) (pa : a.ty.plain = true)
+    (pb : b.ty.plain = true) (ma : a.containsMarked = false) (mb : b.containsMarked = false) :
+    equals a b = equals b a :=
+  equals_symm_of_wf a b wa wb pa pb ma mb
+
+/-- …and on such values of one type it never panics: it answers True, False or unknown. -/
+theorem equals_total (t : Ty) (a b : Payload) (hw : t.wf = true) (hp : t.plain = true)
+    (wa : a.shaped t = true) (ma : a.containsMarked = false) (wb : b.shaped t = true) (mb : b.containsMarked = false) :
+    ∃ acc, equals ⟨t, a⟩ ⟨t, b⟩ = .ok (accVal acc) := by
+  simp only [equals, Value.containsMarked, ma, mb, Bool.or_self, Bool.false_eq_true, if_false, equalsP]
+  obtain ⟨acc, h, _⟩ := equalsFuel_symm (max a.depth b.depth + 1) t a b hw hp ⟨wa, ma, by omega⟩ ⟨wb, mb, by omega⟩
+  exact ⟨acc, h⟩
+
+example : equals ⟨.list .number, .seq [.unk (.num .f none none), .n (Num.ofInt 1 64)]⟩ ⟨.list .number, .seq [.n (Num.ofInt 2 64), .n (Num.ofInt 2 64)]⟩
+    = .ok unkBool := by decide +kernel
+
+/-- Any two nulls are equal, whatever their types; a null differs from every known
+non-null value (either operand order). -/
+theorem equals_nulls (t t' : Ty) :
+    equals ⟨t, .null⟩ ⟨t', .null⟩ = .ok (boolVal true) ∧
+    ∀ p : Payload, p.isKnown = true → p.isNull = false → p.containsMarked = false →
+      equals ⟨t, .null⟩ ⟨t', p⟩ = .ok (boolVal false) ∧ equals ⟨t', p⟩ ⟨t, .null⟩ = .ok (boolVal false) := by
+  refine ⟨?_, fun p hk hn hm => ⟨?_, ?_⟩⟩
+  · simp only [equals, Value.containsMarked, Payload.containsMarked, Bool.or_self, Bool.false_eq_true,
+      if_false, equalsP, equalsFuel]
+    rw [equalsPre_of_known _ _ _ _ rfl rfl]
+    rfl
+  · simp only [equals, Value.containsMarked, Payload.containsMarked, hm, Bool.or_self, Bool.false_eq_true,
+      if_false, equalsP, equalsFuel]
+    rw [equalsPre_of_known _ _ _ _ rfl hk]
+    simp [hn, show Payload.isNull .null = true from rfl]
+  · simp only [equals, Value.containsMarked, Payload.containsMarked, hm, Bool.or_self, Bool.false_eq_true,
+      if_false, equalsP, equalsFuel]
+    rw [equalsPre_of_known _ _ _ _ hk rfl]
+    simp [hn, show Payload.isNull .null = true from rfl]
+
+/-- On wholly known, mark-free, well-formed values of one PLAIN type, `Equals`
+returns exactly the truth value `RawEquals` returns (both are `rawB`). -/
+theorem equals_eq_rawEquals_of_known_partial (t : Ty) (a b : Payload) (hw : t.wf = true) (hp : t.plain = true)
+    (wa : a.shaped t = true) (ka : a.whollyKnown = true) (ma : a.containsMarked = false)
+    (wb : b.shaped t = true) (kb : b.whollyKnown = true) (mb : b.containsMarked = false) :
+    equals ⟨t, a⟩ ⟨t, b⟩ = (rawEq ⟨t, a⟩ ⟨t, b⟩).map boolVal ∧
+    (equals ⟨t, a⟩ ⟨t, b⟩ = .ok (boolVal true) ↔ rawEq ⟨t, a⟩ ⟨t, b⟩ = .ok true) := by
+  have h1 := equals_of_members hw hp wa ka ma wb kb mb
+  have h2 := rawEquals_eq_rawB ⟨t, a⟩ ⟨t, b⟩ ((Value.shaped_iff _).mpr ⟨hw, wa⟩) ((Value.shaped_iff _).mpr ⟨hw, wb⟩) hp
+  simp only [decide_true, Bool.true_and] at h2
+  rw [h1, h2]
+  refine ⟨rfl, ?_⟩
+  cases rawB t a b <;> simp [boolVal]
+
+/-- …and so, on that frontier, `Equals` is reflexive, symmetric and transitive. -/
+theorem equals_equiv_of_known (t : Ty) (hw : t.wf = true) (hp : t.plain = true) (a b c : Payload)
+    (wa : a.shaped t = true) (ka : a.whollyKnown = true) (ma : a.containsMarked = false)
+    (wb : b.shaped t = true) (kb : b.whollyKnown = true) (mb : b.containsMarked = false)
+    (wc : c.shaped t = true) (kc : c.whollyKnown = true) (mc : c.containsMarked = false) :
+    equals ⟨t, a⟩ ⟨t, a⟩ = .ok (boolVal true) ∧
+    equals ⟨t, a⟩ ⟨t, b⟩ = equals ⟨t, b⟩ ⟨t, a⟩ ∧
+    (equals ⟨t, a⟩ ⟨t, b⟩ = .ok (boolVal true) → equals ⟨t, b⟩ ⟨t, c⟩ = .ok (boolVal true) →
+      equals ⟨t, a⟩ ⟨t, c⟩ = .ok (boolVal true)) := by
+  rw [equals_of_members hw hp wa ka ma wa ka ma, equals_of_members hw hp wa ka ma wb kb mb,
+    equals_of_members hw hp wb kb mb wa ka ma, equals_of_members hw hp wb kb mb wc kc mc,
+    equals_of_members hw hp wa ka ma wc kc mc, rawB_refl t a hp wa, rawB_symm t a b hp wa wb]
+  refine ⟨rfl, rfl, fun h1 h2 => ?_⟩
+  have e1 : rawB t b a = true := by cases h : rawB t b a <;> simp_all [boolVal]
+  have e2 : rawB t b c = true := by cases h : rawB t b c <;> simp_all [boolVal]
+  rw [rawB_symm t b a hp wb wa] at e1
+  rw [rawB_trans t a b c hp wa wb wc e1 e2]
+
+/-- The full-strength clause — for every pair of wholly known mark-free well-formed
+values of one type, sets included. -/
+def EqualsAgreesWithRawEquals : Prop :=
+  ∀ a b : Value, a.shaped = true → b.shaped = true → a.ty = b.ty → a.whollyKnown = true → b.whollyKnown = true →
+    a.containsMarked = false → b.containsMarked = false →
+    (equals a b = .ok (boolVal true) ↔ rawEq a b = .ok true)
+
+/-! ### cty's set rules are lawful — where they are -/
+
+/-- the members `cty_rules_lawful_partial` speaks about, as a type -/
+def Member (e : Ty) (ns : List Num) : Type := { p : Payload // p.member e ns = true }
+
+/-- `setRules{e}` restricted to those members (the very functions of `ctyRules e`) -/
+def ctyRulesOn (e : Ty) (ns : List Num) : Rules (Member e ns) where
+  hash := fun p => (ctyRules e).hash p.1
+  equiv := fun a b => (ctyRules e).equiv a.1 b.1
+  less := (ctyRules e).less.map fun l a b => l a.1 b.1
+
+theorem Member.spec {e : Ty} {ns : List Num} (p : Member e ns) :
+    p.1.shaped e = true ∧ p.1.whollyKnown = true ∧ p.1.containsMarked = false ∧ p.1.numsIn ns = true := by
+  have := p.2
+  simp only [Payload.member, Bool.and_eq_true, Bool.not_eq_true'] at this
+  exact ⟨this.1.1.1, this.1.1.2, this.1.2, this.2⟩
+
+/-- **cty's `setRules` meet the contract of `cty/set`** (`Equivalent` is an
+equivalence and equivalent members hash alike) on wholly known, mark-free,
+well-formed members of one plain element type whose numbers are drawn from a
+list `ns` on which number equality and the hashed number text agree
+(`HashCoherentNums ns`, a decidable check). -/
+theorem cty_rules_lawful_partial (e : Ty) (ns : List Num) (hw : e.wf = true) (hp : e.plain = true)
+    (hc : HashCoherentNums ns = true) : (ctyRulesOn e ns).Lawful := by
+  have eqv : ∀ a b : Member e ns, (ctyRulesOn e ns).equiv a b = rawB e a.1 b.1 := fun a b =>
+    ctyRules_equiv_eq hw hp a.spec.1 a.spec.2.1 a.spec.2.2.1 b.spec.1 b.spec.2.1 b.spec.2.2.1
+  refine ⟨fun a => ?_, fun a b h => ?_, fun a b c h1 h2 => ?_, fun a b h => ?_⟩
+  · rw [eqv]; exact rawB_refl e a.1 hp a.spec.1
+  · rw [eqv] at h ⊢; rw [rawB_symm e b.1 a.1 hp b.spec.1 a.spec.1]; exact h
+  · rw [eqv] at h1 h2 ⊢; exact rawB_trans e a.1 b.1 c.1 hp a.spec.1 b.spec.1 c.spec.1 h1 h2
+  · rw [eqv] at h
+    exact ctyRules_hash_eq hp hc a.spec.1 a.spec.2.2.1 a.spec.2.2.2 b.spec.1 b.spec.2.2.1 b.spec.2.2.2 h
+
+/-- The full-strength clause: lawful for every element type and all numbers. -/
+def CtyRulesLawful : Prop := ∀ (e : Ty) (ns : List Num), e.wf = true → (ctyRulesOn e ns).Lawful
+
+/-- **Value sets refine mathematical sets.**  `set_refines` and `set_inv` at cty's
+own rules: for every history of `ValueSet` calls (`Add`, `Remove`, `Has`,
+`Length`, `Values`, `Copy`, `Union`, `Intersection`, `Subtract`,
+`SymmetricDifference`) over admitted members, every set keeps the invariant (no
+two `Equals` members, every member in the bucket of its hash), the final sets are
+the mathematical results, and every answer returned on the way is the one the
+mathematical sets dictate.  `SetVal` is the history "`Add` each input". -/
+theorem valueSet_refines (e : Ty) (ns : List Num) (hw : e.wf = true) (hp : e.plain = true)
+    (hc : HashCoherentNums ns = true) (ops : List (SetOp (Member e ns))) (st : List (SetImpl (Member e ns)))
+    (h : ∀ i, SetImpl.Inv (ctyRulesOn e ns) (SetImpl.getReg st i)) :
+    (∀ i, SetImpl.Inv (ctyRulesOn e ns) (SetImpl.getReg (SetImpl.runRegs (ctyRulesOn e ns) ops st).1 i)) ∧
+    SetImpl.absRegs (ctyRulesOn e ns) (SetImpl.runRegs (ctyRulesOn e ns) ops st).1 =
+      SetImpl.specRun (ctyRulesOn e ns) ops (SetImpl.absRegs (ctyRulesOn e ns) st) ∧
+    SetImpl.OutsOk (ctyRulesOn e ns) (SetImpl.absRegs (ctyRulesOn e ns) st) ops
+      (SetImpl.runRegs (ctyRulesOn e ns) ops st).2 :=
+  have hR := cty_rules_lawful_partial e ns hw hp hc
+  ⟨set_inv hR ops st h, set_refines hR ops st h⟩
+
+/-- …and a set value built from any permutation of the same inputs holds the same
+members (as a mathematical set) and has the same length. -/
+theorem valueSet_built_order_indep (e : Ty) (ns : List Num) (hw : e.wf = true) (hp : e.plain = true)
+    (hc : HashCoherentNums ns = true) (l l' : List (Member e ns)) (hperm : l.Perm l') :
+    SetImpl.Inv (ctyRulesOn e ns) (SetImpl.fromList (ctyRulesOn e ns) l) ∧
+    (∀ y, SetImpl.abs (ctyRulesOn e ns) (SetImpl.fromList (ctyRulesOn e ns) l) y ↔
+      SetImpl.abs (ctyRulesOn e ns) (SetImpl.fromList (ctyRulesOn e ns) l') y) ∧
+    SetImpl.length (SetImpl.fromList (ctyRulesOn e ns) l) = SetImpl.length (SetImpl.fromList (ctyRulesOn e ns) l') :=
+  have hR := cty_rules_lawful_partial e ns hw hp hc
+  ⟨(set_inv_algebra hR SetImpl.empty SetImpl.empty).2.2.2.2 l, (set_built_order_indep hR l l' hperm).2.1,
+    (set_built_order_indep hR l l' hperm).2.2⟩
+
+/-! ### the hypotheses are satisfiable -/
+
+/-- integers, halves and a 512-bit decimal together are hash-coherent -/
+example : HashCoherentNums [Num.ofInt 0 64, Num.ofInt 1 64, .fin false 1 0 53, .fin false 1 (-1) 53,
+    .fin false 3 (-1) 512, .fin true 9 (-2) 64] = true := by decide +kernel
+
+example : Payload.member (.tuple [.number, .list .string]) [Num.ofInt 1 64]
+    (.seq [.n (Num.ofInt 1 64), .seq [.s "a", .null]]) = true := by decide +kernel
+
+/-! ### the three counterexamples (DESIGN §8 #4, #5, #6) -/
+
+/-- float64 3.9477794105 -/
+def w4f : Num := .fin false 4444804470517179 (-50) 53
+/-- the 512-bit parse of "3.9477794105" -/
+def w4p : Num := .fin false 6616383510720751409574419276066167347849274831266510936186703153532054316082981444465370061514054905547072918229708187613238190649929064032578605931325323 (-509) 512
+/-- float64 0.1 -/
+def w5f : Num := .fin false 3602879701896397 (-55) 53
+/-- the 512-bit parse of "0.1" -/
+def w5p : Num := .fin false 10726246343954077679659219998564676901983492656473914702178849154977411224058837581441499438533522742152025486549188840683003106249557255957146919204867277 (-515) 512
+/-- float64 0.1 carried at 512 bits (`NumberFloatVal(0.1).Multiply(parse "1")`) -/
+def w5c : Num := .fin false 3602879701896397 (-55) 512
+/-- the tuples `[17179869181]` and `[17179869182]` (64-bit integers) -/
+def w6T : Ty := .tuple [.number]
+def w6a : Payload := .seq [.n (.fin false 17179869181 0 64)]
+def w6b : Payload := .seq [.n (.fin false 8589934591 1 64)]
+
+/-- **#4 — equal values that hash differently.**  float64 3.9477794105 and the
+512-bit parse of "3.9477794105" are `Equals` (same shortest decimal text) but
+their hash bytes differ (`"3.94777941"` vs `"3.947779411"`: ten significant
+digits of different exact values), so do their hashes, and `SetVal` of the two
+holds BOTH: two equal members in one set.  The pair is not `HashCoherentNums`. -/
+theorem hash_incoherent_counterexample :
+    equals (numVal w4f) (numVal w4p) = .ok (boolVal true) ∧
+    hashBytes (numVal w4f) = .ok (strBytes "3.94777941") ∧
+    hashBytes (numVal w4p) = .ok (strBytes "3.947779411") ∧
+    Value.hash (numVal w4f) = .ok 1243578146 ∧ Value.hash (numVal w4p) = .ok 1459007788 ∧
+    mkSetVal [numVal w4f, numVal w4p] = .ok ⟨.set .number, .sset [1243578146, 1459007788] [.n w4f, .n w4p]⟩ ∧
+    HashCoherentNums [w4f, w4p] = false := by decide +kernel
+
+/-- the two numbers as admitted members of a set of numbers -/
+def w4fM : Member .number [w4f, w4p] := ⟨.n w4f, by decide +kernel⟩
+def w4pM : Member .number [w4f, w4p] := ⟨.n w4p, by decide +kernel⟩
+
+/-- hence cty's rules are not lawful in general -/
+theorem cty_rules_lawful_false : ¬ CtyRulesLawful := by
+  intro h
+  have := (h .number [w4f, w4p] rfl).hash_eq w4fM w4pM (by decide +kernel)
+  revert this
+  decide +kernel
+
+/-- **#5 — no trichotomy.**  float64 0.1 and the 512-bit parse of "0.1" are
+`Equals` AND the first is `GreaterThan` the second (two of `<`, `=`, `>` hold);
+float64 0.1 and the same value carried at 512 bits are neither `Equals` nor
+ordered (none holds). -/
+theorem trichotomy_counterexample :
+    (equals (numVal w5f) (numVal w5p) = .ok (boolVal true) ∧
+      greaterThan (numVal w5f) (numVal w5p) = .ok (boolVal true) ∧
+      lessThan (numVal w5f) (numVal w5p) = .ok (boolVal false)) ∧
+    (equals (numVal w5f) (numVal w5c) = .ok (boolVal false) ∧
+      greaterThan (numVal w5f) (numVal w5c) = .ok (boolVal false) ∧
+      lessThan (numVal w5f) (numVal w5c) = .ok (boolVal false)) := by decide +kernel
+
+/-- the full-strength clause: exactly one of `<`, `=`, `>` on known numbers -/
+def Trichotomy : Prop :=
+  ∀ x y : Num,
+    let l := lessThan (numVal x) (numVal y) = .ok (boolVal true)
+    let e := equals (numVal x) (numVal y) = .ok (boolVal true)
+    let g := greaterThan (numVal x) (numVal y) = .ok (boolVal true)
+    (l ∧ ¬ e ∧ ¬ g) ∨ (¬ l ∧ e ∧ ¬ g) ∨ (¬ l ∧ ¬ e ∧ g)
+
+theorem trichotomy_false : ¬ Trichotomy := by
+  intro h
+  have := h w5f w5p
+  have c := trichotomy_counterexample.1
+  simp only [c.1, c.2.1, not_true_eq_false, and_false, false_and, or_self] at this
+
+/-- **#6 — iteration order depends on insertion order.**  The tuples `[17179869181]`
+and `[17179869182]` are not `Equals`, but hash alike (ten significant digits), so
+`Less` — which compares hash bytes for non-primitive members — orders them
+neither way; they share a bucket and the stable sort keeps insertion order.
+`SetVal([a,b])` and `SetVal([b,a])` hold the same two members, are `Equals`,
+but iterate differently and are not `RawEquals`. -/
+theorem set_order_counterexample :
+    equals ⟨w6T, w6a⟩ ⟨w6T, w6b⟩ = .ok (boolVal false) ∧
+    hashBytes ⟨w6T, w6a⟩ = hashBytes ⟨w6T, w6b⟩ ∧
+    setLess w6T w6a w6b = .ok false ∧ setLess w6T w6b w6a = .ok false ∧
+    mkSetVal [⟨w6T, w6a⟩, ⟨w6T, w6b⟩] = .ok ⟨.set w6T, .sset [3407990228, 3407990228] [w6a, w6b]⟩ ∧
+    mkSetVal [⟨w6T, w6b⟩, ⟨w6T, w6a⟩] = .ok ⟨.set w6T, .sset [3407990228, 3407990228] [w6b, w6a]⟩ ∧
+    setIter w6T [w6a, w6b] = .ok [w6a, w6b] ∧ setIter w6T [w6b, w6a] = .ok [w6b, w6a] ∧
+    rawEq ⟨.set w6T, .sset [3407990228, 3407990228] [w6a, w6b]⟩
+      ⟨.set w6T, .sset [3407990228, 3407990228] [w6b, w6a]⟩ = .ok false ∧
+    equals ⟨.set w6T, .sset [3407990228, 3407990228] [w6a, w6b]⟩
+      ⟨.set w6T, .sset [3407990228, 3407990228] [w6b, w6a]⟩ = .ok (boolVal true) := by decide +kernel
+
+/-- the full-strength clause: a set built from a permutation of the same inputs
+is the same value (same members in the same iteration order) -/
+def SetValOrderIndependent : Prop :=
+  ∀ (l l' : List Value) (s s' : Value), l.Perm l' → mkSetVal l = .ok s → mkSetVal l' = .ok s' →
+    rawEq s s' = .ok true
+
+theorem setVal_order_independent_false : ¬ SetValOrderIndependent := by
+  intro h
+  have c := set_order_counterexample
+  have := h _ _ _ _ (List.Perm.swap _ _ []) c.2.2.2.2.1 c.2.2.2.2.2.1
+  rw [c.2.2.2.2.2.2.2.2.1] at this
+  cases this
+
+/-- …and the same two set values refute `EqualsAgreesWithRawEquals` beyond plain types. -/
+theorem equals_agrees_with_rawEquals_false : ¬ EqualsAgreesWithRawEquals := by
+  intro h
+  have c := set_order_counterexample
+  have := (h ⟨.set w6T, .sset [3407990228, 3407990228] [w6a, w6b]⟩ ⟨.set w6T, .sset [3407990228, 3407990228] [w6b, w6a]⟩
+    (by decide +kernel) (by decide +kernel) rfl (by decide +kernel) (by decide +kernel) (by decide +kernel)
+    (by decide +kernel)).mp c.2.2.2.2.2.2.2.2.2
+  rw [c.2.2.2.2.2.2.2.2.1] at this
+  cases this
+
+end Values
+/-! ######################## end of SECTION «values» ######################## -/
 
 end C03
 end CtyModel
